@@ -200,7 +200,13 @@ def run_proofs(prop, tier, seed):
     if mod is None:
         return None
     t0 = time.time()
-    res = mod.run(tier=tier, seed=seed)
+    # wall-clock budget of the deductive tier (inherited by the solver workers): obligations still open after it are
+    # reported undecided — on the unchanged tree every proof module finishes well within it
+    os.environ["PYVC_DEADLINE"] = str(t0 + float(os.environ.get("VERIF_PROOF_BUDGET_S", 900 if tier == "quick" else 3000)))
+    try:
+        res = mod.run(tier=tier, seed=seed)
+    finally:
+        os.environ.pop("PYVC_DEADLINE", None)
     res["wall"] = time.time() - t0
     res["module"] = mod
     return res
